@@ -37,7 +37,10 @@ def jdd_case(draw, tier):
 @st.composite
 def matrix_case(draw, tier):
     T = draw(st.integers(1, 3))
-    half = st.tuples(*[st.integers(0, 4)] * T)
+    # the matrices handed over may belong to a few of the network's topologies only: the excess tuples are then wider
+    # than the list of names is long
+    W = T + draw(st.sampled_from([0, 0, 0, 1, 2]))
+    half = st.tuples(*[st.integers(0, 4)] * W)
     names = draw(st.lists(st.sampled_from(NAMES), min_size=T, max_size=T, unique=True))
     mats = []
     for _ in range(T):
@@ -49,6 +52,11 @@ def matrix_case(draw, tier):
             if draw(st.booleans()):
                 m[(tuple(b), tuple(a))] = v
         mats.append([[list(a), list(b), v] for (a, b), v in m.items()])
+    if T >= 2:
+        # a topology without edges has an empty matrix (listed first or last)
+        e = draw(st.sampled_from([None, None, 0, T - 1]))
+        if e is not None:
+            mats[e] = []
     return {"kind": "matrix", "names": names, "mats": mats}
 
 
@@ -156,7 +164,6 @@ def check_matrix(case):
     for n, m in reversed(list(zip(names, case["mats"]))):  # dict order deliberately differs from the names list
         ejks[n] = {tuple(a) + tuple(b): float(v) for a, b, v in m}
     M = call("construct", JointExcessJointDegreeMatrices, {TN.EJKS: ejks, TN.EDGE_NAMES: list(names)})
-    T = len(case["mats"][0][0][0])
     for n, m in zip(names, case["mats"]):
         halves = {tuple(a) for a, b, v in m} | {tuple(b) for a, b, v in m}
         if set(map(tuple, M.excess_degree_keys[n])) != halves:
@@ -170,7 +177,12 @@ def check_matrix(case):
     for i, n in enumerate(names):
         if call("topology-index", M.get_topology_index, n) != i:
             raise Violation("topology-index", f"index of {n!r}")
-    return {"nontrivial": len(names) >= 2 and sum(len(m) for m in case["mats"]) >= 3, "classes": ["matrix"]}
+    cl = ["matrix"]
+    if any(not m for m in case["mats"]):
+        cl.append("empty_matrix")
+    if any(m and len(m[0][0]) > len(names) for m in case["mats"]):
+        cl.append("tuples_wider_than_names")
+    return {"nontrivial": len(names) >= 2 and sum(len(m) for m in case["mats"]) >= 3, "classes": cl}
 
 
 def check_network(case):
